@@ -447,3 +447,156 @@ func streamClass(entry string, pi *panicInfo, culprit *pb.SubscribeResponse, all
 	}
 	return pi.Kind + ":stream-fp-" + shortHash(sb.String())
 }
+
+// ---- shrinking ------------------------------------------------------------------
+
+// shrink greedily removes populated fields and list / map entries from a copy
+// of m for as long as fails still holds (fails re-executes the candidate
+// through the same monitor). The result is the small message whose structural
+// fingerprint names the input class of a crash no named class explains; it
+// makes that fall-back class independent of the incidental rest of the
+// message (and so stable across seeds). budget bounds the re-executions.
+func shrink(m proto.Message, budget int, fails func(proto.Message) bool) proto.Message {
+	cur := proto.Clone(m)
+	for pass := 0; pass < 4 && budget > 0; pass++ {
+		changed := false
+		// Enumerate candidate edits on the current message by path; apply each to
+		// a clone and keep the clone if it still fails.
+		n := countEdits(cur.ProtoReflect(), 0)
+		for i := 0; i < n && budget > 0; i++ {
+			cand := proto.Clone(cur)
+			k := i
+			if !applyEdit(cand.ProtoReflect(), &k, 0) {
+				continue
+			}
+			budget--
+			if fails(cand) {
+				cur = cand
+				changed = true
+				// The edit list changed: recount, stay at the same index.
+				n = countEdits(cur.ProtoReflect(), 0)
+				i--
+			}
+		}
+		if !changed {
+			break
+		}
+	}
+	return cur
+}
+
+// countEdits counts the removal edits available in m: clearing a populated
+// field, removing one list element / map entry, and the same recursively.
+func countEdits(m protoreflect.Message, depth int) int {
+	if depth > 6 {
+		return 0
+	}
+	n := 0
+	m.Range(func(fd protoreflect.FieldDescriptor, v protoreflect.Value) bool {
+		n++ // clear the field
+		switch {
+		case fd.IsMap():
+			if v.Map().Len() > 1 {
+				n++ // keep a single entry
+			}
+		case fd.IsList():
+			l := v.List()
+			if l.Len() > 1 {
+				n += l.Len() // remove element j
+			}
+			if fd.Message() != nil {
+				for j := 0; j < l.Len() && j < 8; j++ {
+					n += countEdits(l.Get(j).Message(), depth+1)
+				}
+			}
+		case fd.Message() != nil:
+			n += countEdits(v.Message(), depth+1)
+		}
+		return true
+	})
+	return n
+}
+
+// applyEdit applies the k-th edit in the enumeration order of countEdits.
+// Range order over a message is not specified, so fields are visited sorted.
+func applyEdit(m protoreflect.Message, k *int, depth int) bool {
+	if depth > 6 {
+		return false
+	}
+	var fds []protoreflect.FieldDescriptor
+	m.Range(func(fd protoreflect.FieldDescriptor, _ protoreflect.Value) bool {
+		fds = append(fds, fd)
+		return true
+	})
+	sort.Slice(fds, func(i, j int) bool { return fds[i].Number() < fds[j].Number() })
+	for _, fd := range fds {
+		v := m.Get(fd)
+		if *k == 0 {
+			m.Clear(fd)
+			return true
+		}
+		*k--
+		switch {
+		case fd.IsMap():
+			if v.Map().Len() > 1 {
+				if *k == 0 {
+					mp := m.Mutable(fd).Map()
+					var keys []protoreflect.MapKey
+					mp.Range(func(mk protoreflect.MapKey, _ protoreflect.Value) bool { keys = append(keys, mk); return true })
+					sort.Slice(keys, func(i, j int) bool { return keys[i].String() < keys[j].String() })
+					for _, mk := range keys[1:] {
+						mp.Clear(mk)
+					}
+					return true
+				}
+				*k--
+			}
+		case fd.IsList():
+			l := m.Mutable(fd).List()
+			if l.Len() > 1 {
+				if *k < l.Len() {
+					j := *k
+					// remove element j
+					var keep []protoreflect.Value
+					for x := 0; x < l.Len(); x++ {
+						if x != j {
+							keep = append(keep, l.Get(x))
+						}
+					}
+					l.Truncate(0)
+					for _, x := range keep {
+						l.Append(x)
+					}
+					return true
+				}
+				*k -= l.Len()
+			}
+			if fd.Message() != nil {
+				for j := 0; j < l.Len() && j < 8; j++ {
+					c := countEdits(l.Get(j).Message(), depth+1)
+					if *k < c {
+						return applyEdit(l.Get(j).Message(), k, depth+1)
+					}
+					*k -= c
+				}
+			}
+		case fd.Message() != nil:
+			c := countEdits(v.Message(), depth+1)
+			if *k < c {
+				return applyEdit(m.Mutable(fd).Message(), k, depth+1)
+			}
+			*k -= c
+		}
+	}
+	return false
+}
+
+// shrunkClass is the fall-back input class: failure kind plus the readable
+// structural fingerprint of the shrunk message (hashed when long).
+func shrunkClass(kind string, small proto.Message) string {
+	fp := fingerprint(small)
+	if len(fp) > 90 {
+		fp = fp[:60] + "~" + shortHash(fp)
+	}
+	return kind + ":" + fp
+}
